@@ -1,0 +1,20 @@
+//go:build verif
+// +build verif
+
+package server
+
+import (
+	"github.com/kubewharf/kubebrain/pkg/server/brain"
+	"github.com/kubewharf/kubebrain/pkg/server/etcd"
+	"github.com/kubewharf/kubebrain/pkg/server/service/leader"
+)
+
+// HandlersForSim exposes the handler objects NewServer has built, so that a simulation can
+// call them without a gRPC transport.
+func HandlersForSim(s Server) (*etcd.RPCServer, *brain.Server, leader.LeaderElection) {
+	impl, ok := s.(*server)
+	if !ok {
+		return nil, nil, nil
+	}
+	return impl.etcdServer, impl.brainServer, impl.leaderElection
+}
